@@ -385,7 +385,11 @@ def main():
     t00 = time.time()
     scratch = os.path.join(os.environ.get('VERIF_SCRATCH', '/var/tmp'), 'verif-%s-%d' % (prop, os.getpid()))
     os.makedirs(scratch, exist_ok=True)
-    ev_path = os.path.join(VERIF, 'evidence', prop + '.json')
+    # evidence/<Cxx>.json is the record of a FULL run of the registered check on /repo's working tree.  A partial run
+    # (--only) or a run against another tree (VERIF_REPO, used by my own seeded-change experiments) must never overwrite
+    # it: such runs write evidence/partial/<Cxx>.json (git-ignored) instead.
+    canonical = not a.only and os.path.realpath(REPO) == os.path.realpath('/repo')
+    ev_path = os.path.join(VERIF, 'evidence', prop + '.json') if canonical else os.path.join(VERIF, 'evidence', 'partial', prop + '.json')
     os.makedirs(os.path.dirname(ev_path), exist_ok=True)
     rc = 2
     try:
@@ -484,8 +488,10 @@ def run(prop, tier, scratch, ev_path, a, t00):
         rc = 2
         for u in undecided:
             print("UNDECIDED property=%s unit=%s: %s" % (prop, u.name, u.note[:300]))
-    write_evidence(ev_path, prop, tier, ctx, units, mod, t00, violations=nviol, known=[f['text'] for _, f in known],
-                   undecided=[u.name + ': ' + u.note[:200] for u in undecided])
+    problems = write_evidence(ev_path, prop, tier, ctx, units, mod, t00, violations=nviol, known=[f['text'] for _, f in known],
+                              undecided=[u.name + ': ' + u.note[:200] for u in undecided])
+    if problems and rc == 0:
+        rc = 2      # a quiet verdict with an inconsistent record is not believed: undecided, never a VIOLATION
     print("RESULT property=%s tier=%s exit=%d wall=%.1fs" % (prop, tier, rc, time.time() - t00))
     return rc
 
@@ -541,8 +547,40 @@ def write_evidence(path, prop, tier, ctx, units, mod, t00, violations=0, known=(
         ),
         assumptions=assumptions,
         wall_s=round(time.time() - t00, 2), violations=violations)
-    with open(path, 'w') as f:
+    problems = evidence_problems(ev, violations, undecided)
+    if problems:
+        ev['coverage']['record_problems'] = problems
+        print("EVIDENCE-RECORD-PROBLEM property=%s: %s" % (prop, '; '.join(problems)))
+    tmp = path + '.tmp%d' % os.getpid()
+    with open(tmp, 'w') as f:
         json.dump(ev, f, indent=1, default=str)
+    os.replace(tmp, path)
+    return problems
+
+
+def evidence_problems(ev, violations, undecided):
+    """self-validation of the record against the rules of EVIDENCE.schema.json for its level (no jsonschema module in the
+    system python): a quiet run (no violation, nothing undecided) at level proof must have discharged == obligations >= 1"""
+    out = []
+    for k in ('property_id', 'tier', 'seed', 'level', 'coverage', 'wall_s'):
+        if k not in ev:
+            out.append('missing key ' + k)
+    c = ev.get('coverage', {})
+    if ev.get('level') == 'proof':
+        for k in ('obligations', 'discharged', 'checker_cmd', 'trusted_base'):
+            if k not in c:
+                out.append('coverage.%s missing' % k)
+        if not violations and not undecided:
+            if c.get('obligations', 0) < 1:
+                out.append('zero obligations on a quiet run')
+            if c.get('obligations') != c.get('discharged'):
+                out.append('discharged (%s) != obligations (%s) on a quiet run' % (c.get('discharged'), c.get('obligations')))
+        if not str(c.get('checker_cmd', '')).strip():
+            out.append('empty checker_cmd')
+    if not isinstance(c.get('samples'), list) or not c.get('samples'):
+        if not undecided:
+            out.append('no samples')
+    return out
 
 
 if __name__ == '__main__':
